@@ -274,7 +274,9 @@ def run_c18(c, tier, langs=("c", "cpp")):
         # (2) byte-identical on every run (fresh processes)
         first = open(outp, "rb").read()
         digests = {hashlib.sha1(first).hexdigest()}
-        for kk in range(k_runs - 1):
+        # the full number of repetitions for the first (richest + covering) models, three for the random tail
+        reps = k_runs if idx < 60 else min(k_runs, 3)
+        for kk in range(reps - 1):
             _, _, o2, p2 = run_tool(tool, fakebin, wd, model, idx, out_name="out_%d.h" % kk, lang=lang)
             digests.add(hashlib.sha1(open(o2, "rb").read()).hexdigest())
             os.remove(o2)
@@ -283,7 +285,7 @@ def run_c18(c, tier, langs=("c", "cpp")):
             if site in known:
                 c.known(known[site]["id"], known[site]["what"])
             else:
-                c.violation("[%s] %d runs on the same input and configuration produced %d different headers" % (lang, k_runs, len(digests)), {"model": model, "raw": raw})
+                c.violation("[%s] %d runs on the same input and configuration produced %d different headers" % (lang, reps, len(digests)), {"model": model, "raw": raw})
         # (3) declarations that do not belong to CGlue constructs survive unmodified and in order
         if model["foreign"]:
             if lang == "c":
